@@ -105,40 +105,72 @@ def sem_events(p, dm):
             if frag in d: out.append((tag, e[1], e[2] if len(e) > 2 else None)); break
     return out
 
+# read / write sets of the PhaseSpace methods: (regions written, regions the new contents are computed from).  Not an assumption: job_rw_sets derives them
+# from the real code (every cell of every region a distinct symbol, one call from IR, syntactic occurrence in the changed cells) and compares.
+RW = {'updateX': ({'proj0'}, {'data'}), 'updateY': ({'proj1'}, {'data'}), 'integrate': ({'filling', 'integral'}, {'proj0'}), 'normalize': ({'data'}, {'data', 'filling'}),
+      'integrateAndNormalize': ({'data', 'filling', 'integral'}, {'data', 'proj0'}), 'variance0': ({'moment', 'rms'}, {'filling', 'proj0'}), 'variance1': ({'moment', 'rms'}, {'filling', 'proj1'})}
+ENTRY = {'updateX': ('e_updx', []), 'updateY': ('e_updy', []), 'integrate': ('e_integrate', []), 'normalize': ('e_normalize', []), 'integrateAndNormalize': ('e_intnorm', []), 'variance0': ('e_variance', [0]), 'variance1': ('e_variance', [1])}
+USES = {'wakePotential': {'proj0'}, 'wkm.update': {'proj0'}, 'updateCSR': {'proj0'}, 'status_string': {'proj0', 'filling'}}      # readers outside the class: the position profile (and the charge for the status line)
+
 def freshness(sem):
-    """data-flow rule over the events of one path.  After the loader only the grid values are current: both projections, the integral / per-bunch
-    charges and the moments are those of the object the loader constructed.  Returns (ok, first stale read or None, trace text)."""
-    X = Y = I = False; rcv = None; txt = []
+    """data-flow rule over the events of one path, driven by RW.  After the loader only the grid values are current; projections, charges and moments are those of the
+    object the loader constructed.  Returns (ok, first stale read or None, trace text)."""
+    cur = set(); rcv = None; txt = []; first_normalize = True
     def same(r):
         nonlocal rcv
         if rcv is None: rcv = show(r); return True
         return show(r) == rcv
     for tag, args, ret in sem:
         a0 = args[0] if args else None
-        if tag in ('updateX', 'updateY', 'integrate', 'normalize', 'variance', 'integrateAndNormalize', 'average'):
+        key = tag
+        if tag == 'variance': key = 'variance%s' % (args[1] if len(args) > 1 and isinstance(args[1], int) else '?')
+        if key in RW or tag == 'variance':
             if not same(a0): txt.append(tag + '(other object)'); continue
-        txt.append(tag + (show(args[1]) if tag == 'variance' and len(args) > 1 else ''))
-        if tag == 'updateX': X = True
-        elif tag == 'updateY': Y = True
-        elif tag == 'integrate':
-            if not X: return False, 'integrate() reads the position profile, which was not recomputed from the loaded grid', txt
-            I = True
-        elif tag == 'integrateAndNormalize':
-            if not X: return False, 'integrateAndNormalize() reads the position profile, which was not recomputed from the loaded grid', txt
-            I = True
-        elif tag == 'normalize':
-            if not X: return False, 'normalize() integrates the position profile, which was not recomputed from the loaded grid', txt
-            X = Y = I = False          # the grid was rescaled: everything derived is stale again
-        elif tag == 'variance':
-            ax = args[1] if len(args) > 1 else None
-            need = (X if ax == 0 else Y if ax == 1 else (X and Y))
-            if not need or not I: return False, 'variance(%s) reads a projection / the bunch charges not recomputed from the loaded grid' % show(ax), txt
-        elif tag in ('wakePotential', 'wkm.update', 'updateCSR'):
-            if not X: return False, '%s reads the position profile, which was not recomputed from the loaded grid' % tag, txt
-        elif tag == 'status_string':
-            if not (X and I): return False, 'the status line reads charge/profile not recomputed from the loaded grid', txt
-    if not (X and I): return False, 'the loop starts (first wake update / integrate of the first step) with the position profile or the charge not recomputed from the loaded grid', txt
+        txt.append(key)
+        if key in RW:
+            wr, rd = RW[key]; need = rd - {'data'} - cur
+            if key == 'normalize' and first_normalize and need == {'filling'}:
+                # the charges are still those the constructor measured on its own normalised Gaussian: equal to the set shares within rounding (C09), so this rescaling is the identity within rounding
+                need = set()
+            if key == 'normalize': first_normalize = False
+            if need: return False, '%s() reads %s, not recomputed from the loaded grid' % (key, sorted(need)), txt
+            if 'data' in wr: cur = set()      # the grid changed: everything derived is stale again
+            else: cur |= wr
+        elif tag == 'variance': return False, 'variance() of an axis the rule does not know', txt
+        elif tag in USES:
+            need = USES[tag] - cur
+            if need: return False, '%s reads %s, not recomputed from the loaded grid' % (tag, sorted(need)), txt
+    need = {'proj0', 'filling'} - cur
+    if need: return False, 'the loop starts (first wake update / integrate of the first step) with %s not recomputed from the loaded grid' % sorted(need), txt
     return True, None, txt
+
+def job_rw_sets(res, n=4, nb=2):
+    """the read/write table of the freshness rule, derived from the real PhaseSpace code: grid, both projections, charges, integral, moments and rms all symbolic (one symbol per cell);
+    after one call, the cells whose term changed are the write set and the regions whose symbols occur in them the read set"""
+    import c09, bisect
+    bld = c09.ps_build(); mod = load_module(bld, c09.PS_MODS)
+    snap, R, pre = c09.ps_world(bld, n, nb, 0)
+    starts = [x for x, _ in snap.allocs]
+    def alloc_size(a):
+        i = bisect.bisect_right(starts, a) - 1; b, sz = snap.allocs[i]; return sz - (a - b)
+    regs = {'data': (R['data'], 4 * nb * n * n), 'proj0': (R['proj'], 4 * nb * n), 'proj1': (R['proj'] + 4 * nb * n, 4 * nb * n), 'filling': (R['filling'], 4 * nb), 'integral': (R['integral'], 4),
+            'moment': (R['moment'], alloc_size(R['moment'])), 'rms': (R['rms'], alloc_size(R['rms']))}
+    for key, (fn, args) in sorted(ENTRY.items()):
+        ex = Exec(mod, snap, RealDom()); st = State(); S = {}
+        for k, (a, sz) in regs.items():
+            for i in range(sz // 4):
+                v = z3.Real('%s_%d' % (k, i)); st.sym[a + 4 * i] = (4, 'f', v); S[a + 4 * i] = v
+                if k in ('filling', 'integral'): st.pc.append(v > 0)
+        outs = run_paths(ex, st, fn, [R['ps']] + args); account(res, ex, mod, outs)
+        wr = set(); rd = set()
+        for o in outs:
+            for k, (a, sz) in regs.items():
+                for i in range(sz // 4):
+                    t = ex.dom.z(ex.load(o, a + 4 * i, F32))
+                    if not t.eq(S[a + 4 * i]): wr.add(k); rd |= {x.split('_')[0] for x in syms_of(t)}
+        ok = (wr, rd) == RW[key]
+        res.obs.append(Ob('PhaseSpace::%s (n=%d, %d bunches, every cell of grid/projections/charges/moments symbolic): writes %s, computed from %s - as the freshness rule assumes' % (key, n, nb, sorted(wr), sorted(rd)),
+                          'holds' if ok else 'violated', key='rw-sets', detail='' if ok else 'rule assumes writes %s from %s' % (sorted(RW[key][0]), sorted(RW[key][1]))))
 
 def job_preloop(res, pid):
     bld = mainloop.main_build(); mod = load_module(bld, ['main']); res.funcs['main'] = fn_lines(mod, 'main')
